@@ -66,14 +66,45 @@ class ModelModifier:
         params, quantized_model
     )
 
+    original_outputs = [
+        list(subgraph.outputs) for subgraph in quantized_model.subgraphs
+    ]
     self._transformation_performer.transform_graph(
         instructions, quantized_model
     )
+    self._update_signature_outputs(quantized_model, original_outputs)
     constant_buffer_size = self._process_constant_map(quantized_model)
     if constant_buffer_size > 2**31 - 2**20:
       return self._serialize_large_model(quantized_model)
     else:
       return self._serialize_small_model(quantized_model)
+
+  def _update_signature_outputs(
+      self,
+      quantized_model: schema_py_generated.ModelT,
+      original_outputs: list[list[int]],
+  ) -> None:
+    """Point signature outputs to the tensors that replaced graph outputs.
+
+    Inserting a (de)quantize op after a graph output replaces the tensor in
+    subgraph.outputs; the signature entry for it must follow.
+
+    Args:
+      quantized_model: the transformed TFlite ModelT
+      original_outputs: subgraph.outputs of every subgraph before transformation
+    """
+    for signature_def in quantized_model.signatureDefs or []:
+      subgraph_id = signature_def.subgraphIndex
+      replaced_outputs = dict(
+          zip(
+              original_outputs[subgraph_id],
+              quantized_model.subgraphs[subgraph_id].outputs,
+          )
+      )
+      for tensor_map in signature_def.outputs or []:
+        tensor_map.tensorIndex = replaced_outputs.get(
+            tensor_map.tensorIndex, tensor_map.tensorIndex
+        )
 
   def _process_constant_map(
       self, quantized_model: schema_py_generated.ModelT
